@@ -203,7 +203,7 @@ def _trace(ctx):
     with open(lf, "w") as f:
         f.write("\n".join(l for l, _ in lines) + "\n")
     r = waterlib.run_harness(ctx, "c15", ["trace", "-work", ex, "-lines", lf, "-seed", str(ctx.seed),
-                                          "-cases", "400" if ctx.thorough else "60"], timeout=3000)
+                                          "-cases", "400" if ctx.thorough else "60", "-session-pairs", "12" if ctx.thorough else "3"], timeout=3000)
     _cache["trace"] = (r, lines, info)
     return _cache["trace"]
 
@@ -317,6 +317,9 @@ def correspond(ctx):
         if any(float.fromhex(h["stein"]) > 0 for h in st["hz"]):
             c.bump("run-with-stones-%s" % rname)
         c.bump("run-groundwater-%s" % st.get("gwfrom", "?"))
+        c.bump("run-autoirrigation-%s" % ("on" if st.get("autoirri") else "off"))
+        if st.get("gwfrom") == "polygonfile":
+            c.bump("run-groundwater-phase-%s" % st.get("gwphase"))
         c.bump("gwday-initial", sum(1 for d in days if d["initial"]))
         c.bump("gwday-update", sum(1 for d in days if not d["initial"]))
         for d in days:
@@ -337,6 +340,13 @@ def correspond(ctx):
         c.cases += len(days)
     c.nontrivial = len(distinct)
     c.samples = [{k: v for k, v in x.items() if k != "k"} for x in (pt[:1] + wr[:1] + hy[:1])]
+    sw = [t for _, t in lines if t.startswith("sweep:")]
+    ctx.extra["configuration_sweep"] = {
+        "what": "pairwise cover of " + " x ".join("%s{%s}" % (n, ",".join(map(str, l))) for n, l in c15_projects.SWEEP_FACTORS) +
+                " (PTF > 0 without pore volume in the file excluded: FC <= PS is an input condition there); every line with the order/threshold/"
+                "FC=PS-below-table/table-layer-mix/route (run-params-not-from-route)/return-to-level oracles and the day-1 + update-day model comparison",
+        "lines": len(sw), "configurations": sw,
+        "shared_session_pairs": [{k: v for k, v in x.items() if k != "k"} for x in tcases if x["k"] == "sessionpair"]}
     ctx.extra["traced_runs"] = len(runs)
     ctx.extra["traced_days"] = sum(r_["days"] for r_ in runs)
     ctx.extra["groundwater_changes_observed"] = sum(r_["gw_changes"] for r_ in runs)
